@@ -421,6 +421,10 @@ def _cheap_work(item):
     return [(tag, ground_eval(src, cfg)) for tag, src, cfg in item]
 
 
+def _cheap_work2(item):
+    return [(tag, ground_eval(src, cfg, timeout=2)) for tag, src, cfg in item]
+
+
 def _full_work(item):
     return [(tag, semcheck.run_cfg(src, cfg)) for tag, src, cfg in item]
 
@@ -464,7 +468,7 @@ def judge_one(P, sem, cls, tag, r):
     return semcheck.compare(P, sem, r, tag)
 
 
-def confirmed(ctx, P, sem, cls, item, runs, long_timeout=120):
+def confirmed(ctx, P, sem, cls, item, runs, long_timeout=120, rerun_undecided=True):
     """Problems of the runs of one program, each CONFIRMED by the full pipeline (semcheck.run_cfg): the cheap runs
     (`ground_eval`) only select candidates, so that the independent evaluator can never be the cause of an alarm. Runs that
     were not decided cheaply (too many choices) or ran out of time (loaded machine) are repeated in full, alone, with a long
@@ -472,6 +476,10 @@ def confirmed(ctx, P, sem, cls, item, runs, long_timeout=120):
     out = []
     for (tag, src, cfg), (t2, r) in zip(item, runs):
         full = False
+        if (r[0] == "big" or is_timeout(r)) and not rerun_undecided:
+            if ctx is not None:
+                ctx.count("timeout" if is_timeout(r) else "too many choices for the cheap comparison (skipped)")
+            continue
         if r[0] == "big" or is_timeout(r):
             r = semcheck.run_cfg(src, cfg, timeout=long_timeout)
             full = True
@@ -499,6 +507,8 @@ def corpus_replay(ctx, drv, path, variants, label):
     entries = load_corpus(path)
     if not entries:
         return
+    import time
+    t0 = time.time()
     sems = semcheck.spec_batch(drv, [P for P, _, _ in entries])
     items = [variants(P, sd) for P, sd, _ in entries]
     work = pmap(_cheap_work, items, chunksize=4)
@@ -522,6 +532,7 @@ def corpus_replay(ctx, drv, path, variants, label):
             nok += 1
     ctx.count("corpus programs (%s) unchanged" % label, nok)
     ctx.count("corpus variant runs", nrun)
+    ctx.extra.setdefault("phase_seconds", {})["corpus"] = round(time.time() - t0, 1)
 
 
 def cheap_stream(ctx, drv, progs, seeds, variants, label, cls="agree", max_shrink=1):
@@ -530,7 +541,10 @@ def cheap_stream(ctx, drv, progs, seeds, variants, label, cls="agree", max_shrin
     must give the specification's answer (known findings are matched as in the main stream). class "reject": programs in
     which a query atom is undefined in the well-founded model of some world and that lie OUTSIDE the region of known finding
     C02-missed-negative-cycle: every variant must end in a grounding error."""
+    import time
+    t0 = time.time()
     sems = semcheck.spec_batch(drv, progs)
+    t1 = time.time()
     sel = []
     for P, sd, sem in zip(progs, seeds, sems):
         if sem is None:
@@ -542,7 +556,8 @@ def cheap_stream(ctx, drv, progs, seeds, variants, label, cls="agree", max_shrin
         else:
             sel.append((P, sd, sem))
     items = [variants(P, sd) for P, sd, _ in sel]
-    work = pmap(_cheap_work, items, chunksize=16)
+    work = pmap(_cheap_work2, items, chunksize=16)
+    ctx.extra.setdefault("phase_seconds", {})[label] = {"specification": round(t1 - t0, 1), "runs": round(time.time() - t1, 1)}
     nshrunk = 0
     for (P, sd, sem), item, runs in zip(sel, items, work):
         src = spine.to_src(P)
@@ -553,7 +568,7 @@ def cheap_stream(ctx, drv, progs, seeds, variants, label, cls="agree", max_shrin
             if r[0] == "error":
                 ctx.count("%s: outcome:%s" % (label, r[1][1]))
         seen = []
-        for tag, what, sig in confirmed(ctx, P, sem, cls, item, runs, long_timeout=30):
+        for tag, what, sig in confirmed(ctx, P, sem, cls, item, runs, long_timeout=30, rerun_undecided=False):
             if any(semcheck.same_failure(sig, s) and sig.get("tag") == s.get("tag") for s in seen):
                 continue
             seen.append(sig)
